@@ -9,6 +9,7 @@ verus! {
 //@include spec/eval_context.spec.rs
 //@include spec/derive_assumed.rs
 //@include spec/row.spec.rs
+//@include spec/expand.spec.rs
 
 impl Signal {
 //@fn Signal.default_value
@@ -30,6 +31,8 @@ impl<'a> DataRowIteratorTestData<'a> {
 //@fn TestData.generate_expected_entries
 //@fn TestData.check_changed_entries
 //@fn TestData.entry_is_input
+//@fn TestData.expand_x
+//@fn TestData.expand_c
 }
 
 } // verus!
